@@ -6,6 +6,7 @@ mod error;
 mod model;
 
 pub use crate::ip::{IPv4, IPv6};
+use crate::PartialResult;
 pub use error::{BinaryParseError, ParseError};
 pub use model::{Addresses, Header, SEPARATOR, TCP4, TCP6, UNKNOWN};
 pub use model::{PROTOCOL_PREFIX, PROTOCOL_SUFFIX};
@@ -29,6 +30,23 @@ const PARTS: usize = 7;
 /// Parses a text PROXY protocol header.
 /// The given string is expected to only include the header and to end in \r\n.
 fn parse_header(header: &str) -> Result<Header, ParseError> {
+    match parse_line(header) {
+        // Once the byte after the first '\r' is present the line has ended, and no later input can
+        // supply what is still missing: the line break is in the wrong place.
+        Err(error) if error.is_incomplete() && is_final(header) => Err(ParseError::InvalidSuffix),
+        result => result,
+    }
+}
+
+/// Tests whether the header window already includes the byte that follows its first '\r'.
+fn is_final(header: &str) -> bool {
+    header
+        .find(CARRIAGE_RETURN)
+        .map_or(false, |end| end + 1 < header.len())
+}
+
+/// Parses the fields of a text PROXY protocol header.
+fn parse_line(header: &str) -> Result<Header, ParseError> {
     if header.is_empty() {
         return Err(ParseError::MissingPrefix);
     } else if header.len() > MAX_LENGTH {
